@@ -38,7 +38,7 @@ CHECKS = {
  "C04": ("servlab", "exploration",
    "runtime monitor on regenerated packages: reflection-built validated values of every type with a generated JSON codec; strict RFC 8259 parser, two round-trip legs, Go-level and JSON-level comparison",
    "For every named type with Encode/Decode in the regenerated corpus packages (incl. the type x format matrix format_gen.json) values are built by reflection (all Opt/Nil/OptNil states, every sum variant, enums, nil/empty/filled arrays and maps, extreme numbers, Unicode and escape-heavy strings, recursion) and kept if the generated Validate() accepts them. Oracle: Encode output is strict JSON without duplicate members; Decode accepts it; nothing written is lost or changed (members added by schema defaults allowed); the decoded value is a fixed point of a second round trip at JSON and Go level; optional/nullable state, empty-vs-absent array and length differences of the first leg are violations; the decoded value validates. Thorough runs the whole corpus.",
-   "Conformance of the encoding to the source schema is decided on schema-known generated families (C03's engine in conformance mode: values of the root types built by reflection, kept if the generated Validate() passes, encoded, and the JSON validated against the source schema by the reference validator); for corpus types the schema is not consulted. Not judged: pattern-keyed maps (keys built empty after a probe), ipv4/ipv6 sharing netip.Addr, oneOf values whose distinguishing members are all unset, Go-representation differences that encode to the same JSON.",
+   "Conformance of the encoding to the source schema is decided on schema-known generated families (C03's engine in conformance mode: values of the root types built by reflection, kept if the generated Validate() passes, encoded, and the JSON validated against the source schema by the reference validator); corpus types that the generator built from a component schema of the root document are checked against that component schema as well (overlapping oneOf, null next to a composition with nullable and numeric keywords on inexact decimals are tallied, not judged). Not judged: pattern-keyed maps (keys built empty after a probe), ipv4/ipv6 sharing netip.Addr, oneOf values whose distinguishing members are all unset, Go-representation differences that encode to the same JSON.",
    "DESIGN.md §2 C04"),
  "C11": ("genlab", "exploration",
    "runtime monitor over child processes running the real parser+generator on single-fault structural mutants and byte-level mutants; rusage ceilings; position oracle over node spans recorded by the harness's emitter",
@@ -47,7 +47,7 @@ CHECKS = {
    "DESIGN.md §2 C11"),
  "C10": ("genlab", "exploration",
    "Go race detector on race-instrumented generator worker processes + differential comparison of all bytes written across repetitions, GOMAXPROCS settings, process histories and injected delays",
-   "Each document (corpus selection with default features and with every feature on, a crafted document of order-sensitive constructs - example maps at every site, header/response/media-type/encoding maps, discriminator mappings, server variables, multi-schema reference cycles -, PRNG-generated schema documents with example maps, failing documents interleaved) is generated repeatedly inside worker processes built with -race from the current tree, with GOMAXPROCS in {1,2,16} (quick) / {1,2,3,5,16} (thorough), a different document order per process and PRNG-determined Gosched/sleep at the FileSystem callback between template execution and file write. All runs of a document must write identical bytes and never fail only sometimes; GORACE logs are split into report blocks, deduplicated by top-frame pair, and any block is a violation. Evidence lists the number of distinct file-completion orders observed.",
+   "Each document (corpus selection with default features and with every feature on, a crafted document of order-sensitive constructs - example maps at every site, header/response/media-type/encoding maps, discriminator mappings, server variables, multi-schema reference cycles -, PRNG-generated schema documents with example maps, failing documents interleaved) is generated repeatedly inside worker processes built with -race from the current tree, with GOMAXPROCS in {1,2,16} (quick) / {1,2,3,5,16} (thorough), default-feature configurations with disable lists in the process history, a per-item hang watchdog in the worker (no result after 300 s wall with less than a tenth of it as CPU time is a violation), a different document order per process and PRNG-determined Gosched/sleep at the FileSystem callback between template execution and file write. All runs of a document must write identical bytes and never fail only sometimes; GORACE logs are split into report blocks, deduplicated by top-frame pair, and any block is a violation. Evidence lists the number of distinct file-completion orders observed.",
    "Schedules are those the scheduler produced; a run in which no document showed more than one completion order is reported inconclusive for the schedule part. Differing error texts of an always-failing document are tallied only.",
    "DESIGN.md §2 C10"),
  "C17": ("genlab", "exploration",
